@@ -127,7 +127,7 @@ theorem parse_mu : parseBody VxfwBodyExpected.mouseUpdate = muT := by decide +ke
 theorem parse_hc : parseBody VxfwBodyExpected.handleCommand = hcT := by decide +kernel
 
 local macro "xs" "[" ts:Lean.Parser.Tactic.simpLemma,* "]" : tactic =>
-  `(tactic| simp [execX, atomX, evBoolX, evHits, bindHit, bindTree, setS, liftRes, liftCtl, vxCall, vm0, labelTok, cmdType, armEff,
+  `(tactic| simp [execX, atomX, evBoolX, evHits, bindHit, bindTree, setS, liftRes, liftCtl, vxCall, callFw, vm0, labelTok, cmdType, armEff,
       exec, atom, evBool, evInt, evList, evOfLit, find, recv, bindId, doCall, phaseOf, $ts,*])
 
 /-! ### updatePath -/
@@ -467,12 +467,10 @@ theorem mu_prefix (e : EOracle) (fuel : Nat) (s : St) (t : STree) (col row : Int
       m1.vm = vm0 s ∧ find m1.x.hitl "v2" = some (hitsAt t col row) := by
   unfold hitsAt
   cases hc : containsPoint 0 0 t.w t.h col row
-  · refine ⟨⟨vm0 s, VX.mk [("v2", [])] []
-        [("v3", t), ("v3.containsPoint", t), ("v1", t), ("v1.containsPoint", t)] (fun _ _ => none)⟩, ?_, rfl, ?_⟩
+  · refine ⟨⟨vm0 s, { hitl := [("v2", [])], tree := [("v3", t), ("v3.containsPoint", t), ("v1", t), ("v1.containsPoint", t)] }⟩, ?_, rfl, ?_⟩
     · xs [mu0, mu1, mu2, mu3, hmo, hc]
     · simp [find]
-  · refine ⟨⟨vm0 s, VX.mk [("v2", (([] : List Hit) ++ hitTest t (u16 col) (u16 row))), ("v2", ([] : List Hit))] []
-        [("v3", t), ("v3.containsPoint", t), ("v1", t), ("v1.containsPoint", t)] (fun _ _ => none)⟩, ?_, rfl, ?_⟩
+  · refine ⟨⟨vm0 s, { hitl := [("v2", (([] : List Hit) ++ hitTest t (u16 col) (u16 row))), ("v2", ([] : List Hit))], tree := [("v3", t), ("v3.containsPoint", t), ("v1", t), ("v1.containsPoint", t)] }⟩, ?_, rfl, ?_⟩
     · xs [mu0, mu1, mu2, mu3, hmo, hc]
     · simp [find]
 
